@@ -36,6 +36,14 @@ SPEC DECISIONS (RFC 8613 leaves the sender a choice; S is instantiated with what
        context, when present in a request, must equal the recipient's ID Context, and a context
        with an ID Context is only selected by requests that carry it (libcoap; §8.2 step 2 says
        "and 'kid context' if present").
+ D14.12 a request must carry the kid (§5.1/§8.2 step 2: the Recipient Context is retrieved by it); in a
+       response the kid, if present, is not used (§8.4 retrieves the context by the token), so adding
+       a kid to a response's option is the one modification of the OSCORE option that is accepted.
+ D14.13 Sender Sequence Numbers 0 .. 2^40 − 2 are used (the property's domain; §7.2.1 only demands < 2^40).
+ D14.14 a request with Proxy-Scheme carries Hop-Limit (libcoap's PDU builder adds the RFC 8768 default
+       whenever Proxy-Scheme / Proxy-Uri is added to a request, also to the outer message), and a
+       4.01 response with an Echo option is consumed by the library itself (RFC 9175 / Appendix
+       B.1.2 retransmission) — both outside `unprotect ∘ protect`.
  D14.10 ID Context is absent or a non-empty byte string ("id context present/absent"); Proxy-Uri
        has been rewritten into Proxy-Scheme / Uri-* before protection (§4.1.3.3; C16's business).
  D14.11 replay protection and sequence number exhaustion are C15's specification and are not part
@@ -149,6 +157,7 @@ def optDecode (bs : Bytes) : Option OptVal :=
   | [] => some ⟨[], none, none⟩
   | f :: r =>
     let n := f.toNat % 8
+    if r.length ≥ 255 then none else          -- §2: the OSCORE option is 0..255 bytes long
     if f.toNat / 32 ≠ 0 ∨ n > 5 ∨ n > r.length then none else
     let piv := r.take n
     let r1 := r.drop n
@@ -251,9 +260,13 @@ def aeadSeal (cipher : Bytes → Bytes → Bytes) (key nonce aad pt : Bytes) : B
 def aeadOpen (cipher : Bytes → Bytes → Bytes) (key nonce aad ct : Bytes) : Option Bytes :=
   ccmDecrypt (cipher key) 8 nonce aad ct
 
-/-- §8.1.  `none`: the message already carries an OSCORE option. -/
+/-- D14.13: the largest Sender Sequence Number that is used (§7.2.1: less than 2^40 for a 13-byte nonce) -/
+def maxSeq : Nat := 2 ^ 40 - 2
+
+/-- §8.1.  `none`: the message already carries an OSCORE option, or the sequence numbers are exhausted. -/
 def protectRequest (cipher : Bytes → Bytes → Bytes) (c : Ctx) (m : Msg) (seq : Nat) : Option (Msg × Binding) :=
   if m.opts.any (fun o => o.1 = optOscore) then none else
+  if seq > maxSeq then none else
   let piv := pivBytes seq
   let nce := nonce c.commonIV c.sid piv
   let ct := aeadSeal cipher c.senderKey nce (aad c.alg c.sid piv) (encPlain m.code (innerOpts true m.opts) m.payload)
@@ -265,6 +278,7 @@ def protectRequest (cipher : Bytes → Bytes → Bytes) (c : Ctx) (m : Msg) (seq
 def protectResponse (cipher : Bytes → Bytes → Bytes) (c : Ctx) (b : Binding) (m : Msg) (seq : Option Nat)
     (sepMid : Option Nat) : Option Msg :=
   if m.opts.any (fun o => o.1 = optOscore) then none else
+  if (match seq with | some n => decide (n > maxSeq) | none => false) then none else
   let piv := match seq with | some n => pivBytes n | none => []
   let nce := match seq with | some n => nonce c.commonIV c.sid (pivBytes n) | none => b.nonce
   let ct := aeadSeal cipher c.senderKey nce (aad c.alg b.kid b.piv) (encPlain m.code (innerOpts false m.opts) m.payload)
@@ -297,7 +311,7 @@ def unprotectRequest (cipher : Bytes → Bytes → Bytes) (c : Ctx) (m : Msg) : 
     match optDecode ov with
     | none => .rej
     | some v =>
-      if v.kid.getD [] ≠ c.rid ∨ v.kidctx.getD [] ≠ c.idctx.getD [] then .rej else
+      if v.kid ≠ some c.rid ∨ v.kidctx.getD [] ≠ c.idctx.getD [] then .rej else
       let nce := nonce c.commonIV c.rid v.piv
       match aeadOpen cipher c.recipientKey nce (aad c.alg c.rid v.piv) m.payload with
       | none => .rej
